@@ -555,6 +555,13 @@ func (c rtCase) trailingBackslash() bool {
 			return true
 		}
 	}
+	for _, h := range c.Header {
+		for _, seg := range strings.Split(h, ".") {
+			if strings.HasSuffix(seg, `\`) {
+				return true
+			}
+		}
+	}
 	return false
 }
 
@@ -721,7 +728,8 @@ func genHeader(t *rapid.T, c *rtCase, n int, dirty bool) []string {
 			h = genText(t, "htok", toks, 1, 3)
 		}
 		if c.isJSON() && fw.Pct(t, "hperiod", 8) {
-			h = h + "." + fw.PickU(t, "hsub", safeNames)
+			// path syntax (documented: a period makes a child object): plain segments only
+			h = fw.PickU(t, "hname", safeNames) + "." + fw.PickU(t, "hsub", safeNames)
 		}
 		if c.isJSON() && avoiding(avoidJSONNameTrimmed, "json_column_name_trimmed") {
 			h = trimBlank(h)
